@@ -1,7 +1,8 @@
-import NdnModel.Lvs.Proto
-/-  Driver of C13: the LVS line protocol (see NdnModel/Lvs/Proto.lean).  -/
+import NdnModel.Lvs.CProto
+/-  Driver of C13: the LVS line protocol (see NdnModel/Lvs/Proto.lean) extended with the compiler model
+    (NdnModel/Lvs/CProto.lean).  -/
 namespace Ndn.Drv.C13
 
-def handle (args : List String) : String := Ndn.Lvs.Proto.handle args
+def handle (args : List String) : String := Ndn.Lvs.CProto.handle args
 
 end Ndn.Drv.C13
